@@ -2,7 +2,7 @@
 
 
 def run(ctx):
-    ctx.lean_obligations(["SV.Props.C01"], drivers=["svdriver_c01"])
+    ctx.lean_obligations(["SV.Props.C01", "SV.Props.C01x"], drivers=["svdriver_c01"])
     quick = ctx.tier == "quick"
     # reader level: VerifiableReader / reader over the memory metadata store (in-package), memory +
     # directory chunk caches, corrupting blob source, prefetch racing with VerifyTOC (goroutines)
@@ -11,6 +11,11 @@ def run(ctx):
         ctx.correspond(b, "TestVerifC01", "svdriver_c01", "c01reader",
                        env={"VERIF_N": 45 if quick else 1200, "VERIF_RACES": 25 if quick else 800},
                        timeout=600 if quick else 3000)
+        # window stream: the real directory cache with a small memory / descriptor LRU; a second file
+        # handle caches more chunks than the LRU holds inside the window between cache.Get / cache.Add
+        # and the use of the Reader / Writer they returned (forced by a hook wrapper, no timing)
+        ctx.correspond(b, "TestVerifC01Window", "svdriver_c01", "c01window",
+                       env={"VERIF_N": 24 if quick else 600}, timeout=600 if quick else 3000)
     # layer level: orders of Verify / SkipVerify requests reaching one real layer object, reads
     # through the node API
     b = ctx.go_test_binary("fs/layer", "h_layer")
